@@ -36,7 +36,7 @@ struct Exec
 	uint64_t n_pairs = 0, n_refused = 0, n_queued = 0, n_tags = 0;
 
 	struct MC { bool issued = false, done = false, closed = false; int target = -1; int64_t t_issue = -1, t_done = -1; std::string ec; bool listening_at_issue = false; int acc_idx = -1; std::string got_tags; bool tag_sent = false; };
-	struct MA { bool listening = false, closed = false; bool accept_outstanding = false; bool loop = false; int overload = 0; std::vector<int> syn_order; int accepts_ok = 0; };
+	struct MA { bool listening = false, closed = false; bool accept_outstanding = false; int last_fixed_gen = 0; /* the last accept posted into the re-used peer socket */ int gen = 0; /* the accept posted last; an accept posted while one is outstanding supersedes it */ bool loop = false; int overload = 0; std::vector<int> syn_order; int accepts_ok = 0; };
 	struct AS { std::shared_ptr<ip::tcp::socket> s; int acceptor; int order; int client = -1; std::string got_tags; std::vector<char> buf; bool closed = false; };
 	MC mc[4]; MA ma[2];
 	std::vector<std::unique_ptr<AS>> accepted;
@@ -58,7 +58,7 @@ struct Exec
 	{
 		switch (o.k) {
 			case LISTEN: return !ma[o.a].closed && !ma[o.a].listening;
-			case ACCEPT: return !ma[o.a].closed && ma[o.a].listening && !ma[o.a].accept_outstanding;
+			case ACCEPT: return !ma[o.a].closed && ma[o.a].listening && !(ma[o.a].accept_outstanding && (ma[o.a].loop || o.b == 3)); // a plain accept may supersede an outstanding one (which is then aborted)
 			case CONNECT: return !mc[o.a].issued;
 			case CLOSE_EC: case CLOSE_NOARG: return !ma[o.a].closed;
 			case CLOSE_CLIENT: return mc[0].issued && !mc[0].closed;
@@ -78,20 +78,26 @@ struct Exec
 		a->s->async_read_some(asio::buffer(a->buf), [this, a](error_code const& ec, std::size_t n) { if (ec) return; a->got_tags.append(a->buf.data(), n); ++n_tags; read_loop_acc(a); });
 	}
 
-	void on_accept(int ai, int overload, error_code const& ec, std::unique_ptr<ip::tcp::socket> moved)
+	void on_accept(int ai, int overload, error_code const& ec, std::unique_ptr<ip::tcp::socket> moved, int gen, std::shared_ptr<ip::tcp::socket> fresh = nullptr, std::shared_ptr<ip::tcp::endpoint> pe = nullptr)
 	{
 		MA& M = ma[ai]; int64_t t = now_ns();
 		if (ctx) ++ctx->R.transitions;
 		if (api_depth() > 0) fail("inline: accept handler invoked inside a library call");
-		M.accept_outstanding = false;
+		if (gen == M.gen) M.accept_outstanding = false;
 		log.push_back(fmt("@%lld   A%d accept (overload %d) completes: %s", (long long)t, ai, overload, ecs(ec).c_str()));
 		bool const rearm = M.loop && !ec && !M.closed;
 		if (ec) { if (ec != asio::error::operation_aborted) fail(fmt("accept_error: accept on A%d completed with %s", ai, ecs(ec).c_str())); return; }
 		std::unique_ptr<AS> as(new AS); as->acceptor = ai; as->order = M.accepts_ok++;
 		if (overload == 2) as->s = std::shared_ptr<ip::tcp::socket>(moved.release());
-		else if (overload == 1) { as->s = fresh_peer[ai]; fresh_peer[ai].reset(new ip::tcp::socket(*nS)); }
+		else if (overload == 1) as->s = fresh; // every accept of this overload gets a peer socket (and endpoint variable) of its own
 		else { as->s = fixed_peer[ai]; for (auto& old : accepted) if (old->s == as->s) old->closed = true; } // re-accepting into a reused socket object
-		error_code e2; ip::tcp::endpoint re = as->s->remote_endpoint(e2); ip::tcp::endpoint le = as->s->local_endpoint();
+		if (overload == 0 && gen < M.last_fixed_gen) {
+			// the program posted another accept into the same peer socket before this completion ran: that call closed the connection this accept had established
+			if (size_t(as->order) < M.syn_order.size()) { int cl = M.syn_order[size_t(as->order)]; as->client = cl; if (mc[cl].acc_idx >= 0) fail(fmt("pairing: client c%d is matched with two accepts", cl)); mc[cl].acc_idx = int(accepted.size()); ++n_pairs; }
+			as->closed = true; as->s.reset(); accepted.push_back(std::move(as)); return;
+		}
+		error_code e2, e3; ip::tcp::endpoint re = as->s->remote_endpoint(e2); ip::tcp::endpoint le = as->s->local_endpoint(e3);
+		if (e3) fail("accepted_local: local_endpoint() of the accepted socket fails with " + ecs(e3));
 		std::string lep = ai == 0 ? "10.0.1.1:6000" : "[fe80::1]:6000";
 		if (e2) fail("accepted_remote: remote_endpoint() of the accepted socket fails with " + ecs(e2));
 		if (eps(le) != lep) fail("accepted_local: the accepted socket's local endpoint is " + eps(le) + ", the listening endpoint is " + lep);
@@ -102,12 +108,12 @@ struct Exec
 			std::string want = fmt(cl == 3 ? "[%s]:%d" : "%s:%d", CVIS[cl], CPORT[cl]);
 			if (eps(re) != want) fail(fmt("pairing: accept #%d on A%d should be matched with the SYN that arrived %s (client c%d, visible as %s) but the accepted socket's remote endpoint is %s", as->order, ai,
 				as->order == 0 ? "first" : "next", cl, want.c_str(), eps(re).c_str()));
-			if (overload == 1 && eps(peer_ep[ai]) != eps(re)) fail("accept_peer_endpoint: accept reported peer endpoint " + eps(peer_ep[ai]) + " but remote_endpoint() of the accepted socket is " + eps(re));
+			if (overload == 1 && eps(*pe) != eps(re)) fail("accept_peer_endpoint: accept reported peer endpoint " + eps(*pe) + " but remote_endpoint() of the accepted socket is " + eps(re));
 			if (mc[cl].acc_idx >= 0) fail(fmt("pairing: client c%d is matched with two accepts", cl));
 			mc[cl].acc_idx = int(accepted.size());
 			++n_pairs;
 		}
-		if (rearm) { M.accept_outstanding = true; VF_API(A[ai]->async_accept(*fresh_peer[ai], peer_ep[ai], [this, ai](error_code const& e2) { on_accept(ai, 1, e2, nullptr); })); }
+		if (rearm) { M.accept_outstanding = true; int g = ++M.gen; auto fs = std::make_shared<ip::tcp::socket>(*nS); auto fe = std::make_shared<ip::tcp::endpoint>(); VF_API(A[ai]->async_accept(*fs, *fe, [this, ai, g, fs, fe](error_code const& e2) { on_accept(ai, 1, e2, nullptr, g, fs, fe); })); }
 		AS* raw = as.get(); accepted.push_back(std::move(as));
 		// tag from the accepted side
 		std::string tag = fmt("<S%zu>", accepted.size() - 1);
@@ -124,11 +130,12 @@ struct Exec
 		switch (o.k) {
 			case LISTEN: { error_code ec; VF_API(A[o.a]->listen(10, ec)); if (ec) fail("listen: " + ecs(ec)); ma[o.a].listening = true; break; }
 			case ACCEPT: {
-				MA& M = ma[o.a]; M.accept_outstanding = true; M.overload = o.b; int ai = o.a;
+				MA& M = ma[o.a]; M.accept_outstanding = true; M.overload = o.b; int ai = o.a; int g = ++M.gen;
 				if (o.b == 0) for (auto& old : accepted) if (old->s == fixed_peer[ai]) old->closed = true; // async_accept closes the reused peer socket right away
-				if (o.b == 0) VF_API(A[ai]->async_accept(*fixed_peer[ai], [this, ai](error_code const& ec) { on_accept(ai, 0, ec, nullptr); }));
-				else if (o.b == 1 || o.b == 3) { if (o.b == 3) M.loop = true; VF_API(A[ai]->async_accept(*fresh_peer[ai], peer_ep[ai], [this, ai](error_code const& ec) { on_accept(ai, 1, ec, nullptr); })); }
-				else VF_API(A[ai]->async_accept([this, ai](error_code const& ec, ip::tcp::socket s) { on_accept(ai, 2, ec, std::unique_ptr<ip::tcp::socket>(new ip::tcp::socket(std::move(s)))); }));
+				if (o.b == 0) M.last_fixed_gen = g;
+				if (o.b == 0) VF_API(A[ai]->async_accept(*fixed_peer[ai], [this, ai, g](error_code const& ec) { on_accept(ai, 0, ec, nullptr, g); }));
+				else if (o.b == 1 || o.b == 3) { if (o.b == 3) M.loop = true; auto fs = std::make_shared<ip::tcp::socket>(*nS); auto fe = std::make_shared<ip::tcp::endpoint>(); VF_API(A[ai]->async_accept(*fs, *fe, [this, ai, g, fs, fe](error_code const& ec) { on_accept(ai, 1, ec, nullptr, g, fs, fe); })); }
+				else VF_API(A[ai]->async_accept([this, ai, g](error_code const& ec, ip::tcp::socket s) { on_accept(ai, 2, ec, std::unique_ptr<ip::tcp::socket>(new ip::tcp::socket(std::move(s))), g); }));
 				break; }
 			case CONNECT: {
 				int i = o.a; MC& M = mc[i]; M.issued = true; M.target = o.b; M.t_issue = t;
@@ -249,7 +256,7 @@ struct Exec
 			fail(fmt("accept_pending: A%d has an accept outstanding and %zu SYNs arrived but only %d accepts completed", a, ma[a].syn_order.size(), ma[a].accepts_ok));
 		// teardown
 		timer.reset(); error_code ig;
-		for (auto& a : accepted) a->s->close(ig);
+		for (auto& a : accepted) if (a->s) a->s->close(ig);
 		for (int i = 0; i < 4; ++i) c[i]->close(ig);
 		for (int a = 0; a < 2; ++a) A[a]->close(ig);
 		sim->run();
@@ -260,21 +267,23 @@ struct Exec
 
 struct PairEngine : Engine
 {
-	int D = 5; std::vector<std::vector<int>> unit_prefix; std::vector<int> unit_variant; bool thorough_ = false;
+	int D = 5; std::vector<std::vector<int>> unit_prefix; std::vector<int> unit_variant, unit_depth; bool thorough_ = false;
 	// the initial-state variant is explored one op shallower in the quick tier: with both acceptors already listening (variant 1)
 	// the same depth reaches further (three queued connects + two accepts fit in 6 ops)
-	int depth_of(int variant) const { return thorough_ ? 7 : (variant == 0 ? 5 : 6); }
+	// ... and there only for the sequences that start with a connect (the ones that build up a queue of SYNs); the others get 5 ops
+	int depth_of(int variant, bool connect_first = true) const { return thorough_ ? 7 : (variant == 0 ? 5 : (connect_first ? 6 : 5)); }
 	uint64_t units(Args const& a) override
 	{
-		unit_prefix.clear(); unit_variant.clear(); thorough_ = a.thorough();
+		unit_prefix.clear(); unit_variant.clear(); unit_depth.clear(); thorough_ = a.thorough();
 		for (int variant = 0; variant < 2; ++variant) {
 			D = depth_of(variant);
 			Chooser c0; c0.reset({}); { Exec e(D, &c0, nullptr); e.prelisten = variant == 1; e.run(); }
 			int n0 = c0.trace.empty() ? 1 : c0.trace[0].first;
 			for (int a0 = 0; a0 < n0; ++a0) {
-				Chooser c1; c1.reset({ a0 }); { Exec e(D, &c1, nullptr); e.prelisten = variant == 1; e.run(); }
-				if (c1.trace.size() < 2) { unit_prefix.push_back({ a0 }); unit_variant.push_back(variant); continue; }
-				for (int k = 0; k < c1.trace[1].first; ++k) { unit_prefix.push_back({ a0, k }); unit_variant.push_back(variant); }
+				Chooser c1; c1.reset({ a0 }); bool cf = false; { Exec e(D, &c1, nullptr); e.prelisten = variant == 1; e.run(); cf = !e.log.empty() && e.log[0].find("connect(") != std::string::npos; }
+				int ud = depth_of(variant, cf);
+				if (c1.trace.size() < 2) { unit_prefix.push_back({ a0 }); unit_variant.push_back(variant); unit_depth.push_back(ud); continue; }
+				for (int k = 0; k < c1.trace[1].first; ++k) { unit_prefix.push_back({ a0, k }); unit_variant.push_back(variant); unit_depth.push_back(ud); }
 			}
 		}
 		return unit_prefix.size();
@@ -282,7 +291,7 @@ struct PairEngine : Engine
 	void run_unit(uint64_t u, Ctx& ctx) override
 	{
 		ctx.watchdog_s = 10;
-		std::vector<int> pre = unit_prefix[size_t(u)]; size_t base = pre.size(); D = depth_of(unit_variant[size_t(u)]);
+		std::vector<int> pre = unit_prefix[size_t(u)]; size_t base = pre.size(); D = unit_depth[size_t(u)];
 		++ctx.ordinal; std::vector<int> start = pre;
 		if (ctx.resuming && ctx.cur_unit == ctx.r_unit) {
 			auto const& t = ctx.r_trace; int i = int(t.size()) - 1;
